@@ -328,9 +328,10 @@ structure Response where
   data : Json
   errors : Errs
 
-/-- the root node of the universe is node 0 (its type is the query / mutation root type) -/
+/-- the root node of the universe is node 0 (its type is the query / mutation / subscription root type; a subscription
+    operation is given the meaning of one event: the response to the event the source emits for its root field) -/
 def execute (s : Schema) (u : Universe) (op : Op) (vars : List (String × Json)) : Response :=
-  let root := if op.kind == "mutation" then s.mutation else s.query
+  let root := if op.kind == "mutation" then s.mutation else if op.kind == "subscription" then "Subscription" else s.query
   match execSels s u op vars 256 root 0 none op.sels with
   | (some fs, e) => ⟨.obj fs, e⟩
   | (none, e) => ⟨.null, e⟩
